@@ -321,6 +321,50 @@ def _answered(name, opt_ty):
     return f
 
 
+def _str_join(interp, args, kwargs):
+    """sep.join(L) for a symbolic list of strings (native encoding): the result holds part j at join_off(result, j); parts are one separator
+    apart; the text ends with the last part (exact characterisation of the positions, the way str.split is modelled)"""
+    from pyvc.vals import TList, Cell
+    ctx = interp.ctx
+    sep = _s(interp, args[0])
+    lst = args[1]
+    if isinstance(lst, Cell) and lst.sym is None:
+        parts = [_s(interp, x) for x in lst.conc]
+        if not parts:
+            return ""
+        t = parts[0]
+        for p_ in parts[1:]:
+            t = z3.Concat(t, sep, p_)
+        return SV(STR, t)
+    sv = lst.sym if isinstance(lst, Cell) else lst
+    ty = sv.ty
+    if ty != TList(STR):
+        raise Unsupported("str.join of a list that is not a list of strings")
+    so = sort_of(ty)
+    f = z3.Function("join_of", z3.StringSort(), so, z3.StringSort())
+    off = z3.Function("join_off", z3.StringSort(), so, z3.IntSort(), z3.IntSort())
+    r = f(sep, sv.t)
+    k = z3.Int(ctx.fresh_name("k"))
+    pk = z3.Select(so.data(sv.t), k)
+    n = so.len(sv.t)
+    ctx.assume(off(sep, sv.t, 0) == 0)
+    ctx.assume(z3.ForAll([k], z3.Implies(z3.And(0 <= k, k < n),
+                                         z3.And(off(sep, sv.t, k + 1) == off(sep, sv.t, k) + z3.Length(pk) + z3.Length(sep),
+                                                z3.SubString(r, off(sep, sv.t, k), z3.Length(pk)) == pk)), patterns=[pk]))
+    ctx.assume(z3.If(n > 0, z3.Length(r) == off(sep, sv.t, n) - z3.Length(sep), r == z3.StringVal("")))
+    return SV(STR, r)
+
+
+def _join_off(interp, args, kwargs):
+    """join_off(sep, L, j): start of part j inside sep.join(L) (specification only)"""
+    from pyvc.vals import TList, Cell, INT
+    lst = args[1]
+    sv = lst.sym if isinstance(lst, Cell) else lst
+    so = sort_of(TList(STR))
+    off = z3.Function("join_off", z3.StringSort(), so, z3.IntSort(), z3.IntSort())
+    return SV(INT, off(_s(interp, args[0]), sv.t, interp.ctx.term(args[2], INT)))
+
+
 def _str_count_native(interp, args, kwargs):
     """s.count(c) for native strings: uninterpreted, with count >= 0 and count == 0 iff c does not occur"""
     ctx = interp.ctx
@@ -516,7 +560,7 @@ if z3 is not None:
         "str.rpartition": _partition(True), "str.partition": _partition(False),
         "str.count": _str_count_native, "count_of": _str_count_native,
         "ErrorHandler.format_error_with_context": _format_error_with_context,
-        "str.replace": _str_replace, "str.split": _str_split, "answered_entry": _answered("answered_entry", "entry"), "answered_remainder": _answered("answered_remainder", "rem"), "split_off": _split_off, "copy.deepcopy": _deepcopy, "replace_all": _str_replace,
+        "str.replace": _str_replace, "str.split": _str_split, "str.join": _str_join, "join_off": _join_off, "answered_entry": _answered("answered_entry", "entry"), "answered_remainder": _answered("answered_remainder", "rem"), "split_off": _split_off, "copy.deepcopy": _deepcopy, "replace_all": _str_replace,
         "forall_str": _forall_str, "dirname_of": _dirname_model, "commonpath2": _ufun("commonpath2", 2),
         "os.path.commonpath": lambda interp, args, kwargs: _ufun("commonpath2", 2)(interp, list(interp.iter_items_concrete(args[0])), {}), "basename_of": _basename_model, "original_path_of": _ufun("original_path_of", 2),
         "backup_keys": lambda interp, args, kwargs: interp.ctx.wrap(z3.Function("backup_keys", z3.IntSort(), z3.StringSort(), sort_of(__import__("pyvc.vals", fromlist=["TList"]).TList(STR)))(args[0].t, _s(interp, args[1])), __import__("pyvc.vals", fromlist=["TList"]).TList(STR)), "unknown_src_map": _src_map, "src_of": _src_of,
